@@ -237,6 +237,55 @@ def class_table():
     return entries, probes, skipped
 
 
+def anf_source():
+    """AST of funsor.interpreter.anf: how the wait count is initialised, how parents are recorded, how the
+    emission loop decrements; plus a live run on a node with a duplicated child next to a deeper sibling."""
+    import funsor.interpreter as I
+    src = textwrap.dedent(inspect.getsource(I.anf))
+    tree = ast.parse(src).body[0]
+    count_rule, parent_rule, dec, leaf0 = "unknown", "unknown", False, 0
+    count_stmt, parent_stmt = "", ""
+    for loop in ast.walk(tree):
+        if isinstance(loop, ast.For) and ast.unparse(loop.iter).startswith("children("):
+            cvar = ast.unparse(loop.target)
+            for st in loop.body:                       # statements directly in the loop body = per occurrence
+                u = ast.unparse(st)
+                if isinstance(st, ast.AugAssign) and u.replace(" ", "") == "children_counts[h]+=1":
+                    count_rule, count_stmt = "perOccurrence", u
+                if isinstance(st, ast.Expr) and u.replace(" ", "") == f"child_to_parents[{cvar}].append(h)":
+                    parent_rule, parent_stmt = "perOccurrence", u
+            for st in ast.walk(loop):                  # nested under a condition = not per occurrence
+                u = ast.unparse(st).replace(" ", "")
+                if isinstance(st, ast.If):
+                    for inner in ast.walk(st):
+                        ui = ast.unparse(inner).replace(" ", "")
+                        if isinstance(inner, ast.Expr) and ui == f"child_to_parents[{cvar}].append(h)" \
+                                and parent_rule != "perOccurrence":
+                            parent_rule, parent_stmt = "perDistinct", ast.unparse(inner)
+    for st in ast.walk(tree):
+        u = ast.unparse(st)
+        if isinstance(st, ast.Assign) and u.replace(" ", "").startswith("children_counts[h]=len("):
+            count_rule, count_stmt = "perDistinct", u
+        if isinstance(st, ast.For) and ast.unparse(st.iter).replace(" ", "") == "child_to_parents[h]":
+            dec = any(isinstance(x, ast.AugAssign) and
+                      ast.unparse(x).replace(" ", "") == f"children_counts[{ast.unparse(st.target)}]-=1"
+                      for x in st.body)
+        if isinstance(st, ast.If) and ast.unparse(st.test).replace(" ", "") in (
+                "children_counts[h]==0", "children_counts[parent]==0"):
+            leaf0 += 1
+    # live: root -> (a, a, b), b deeper than a
+    a = ("a",)
+    b = ((("d",),),)
+    node = (a, a, b)
+    root = (node,)
+    order = list(I.anf(root, stop=lambda x: isinstance(x, str)))
+    pos = {id(k): i for i, k in enumerate(order)}
+    live_ok = all(id(k) in pos for k in (a, b, node, root)) and pos[id(b)] < pos[id(node)] and pos[id(a)] < pos[id(node)]
+    return dict(count_rule=count_rule, parent_rule=parent_rule, dec=dec, leaf0=(leaf0 == 2),
+                count_stmt=count_stmt, parent_stmt=parent_stmt, live_ok=live_ok)
+
+
+
 def write_if_changed(path, text):
     if path.exists() and path.read_text() == text:
         return False
@@ -265,6 +314,18 @@ def extract(ctx):
     L.append("")
     L.append("end FV.C03.Gen")
     changed = write_if_changed(GEN / "C03ClassTable.lean", "\n".join(L) + "\n")
+    a = anf_source()
+    A = ["/- GENERATED by fv/harness/c03.py extract() from funsor/interpreter.py (AST of `anf`) — DO NOT EDIT. -/",
+         "import FunsorVerif.Model.C03", "namespace FV.C03.Gen", "open FV.C03", "",
+         "def anfSource : AnfSource :=",
+         f"  {{ countRule := CountRule.{a['count_rule']}, parentRule := CountRule.{a['parent_rule']},",
+         f"    decrementPerEntry := {'true' if a['dec'] else 'false'}, leafTestZero := {'true' if a['leaf0'] else 'false'},",
+         f"    countStmt := {json.dumps(a['count_stmt'])}, parentStmt := {json.dumps(a['parent_stmt'])} }}", "",
+         "/-- live run of `anf` on root -> (a, a, b) with b deeper than a: both a and b precede the node -/",
+         f"def anfLiveDuplicateChildOk : Bool := {'true' if a['live_ok'] else 'false'}", "",
+         "end FV.C03.Gen"]
+    changed_a = write_if_changed(GEN / "C03AnfSource.lean", "\n".join(A) + "\n")
+    ctx.extra["extract_anf"] = dict(a, rewritten=changed_a)
     bad = [c.__name__ for c, _, ok in entries if not ok]
     ctx.extra["extract"] = {
         "classes": len(entries), "candidate_pairs": len(probes),
@@ -410,6 +471,8 @@ def py_of(r):
         return f"{r[1]}({', '.join(args)})"
     if r[0] == "reduceall":
         return f"({py_of(r[2])}).reduce(ops.{gen_terms._pyop(r[1])})"
+    if r[0] == "align":
+        return f"({py_of(r[1])}).align({tuple(r[2])!r})"
     if r[0] == "subs":
         return f"({py_of(r[1])})(**{{" + ", ".join(f"{k!r}: {py_of(v)}" for k, v in r[2]) + "})"
     if r[0] == "var" and not isinstance(r[2], int):
@@ -762,13 +825,18 @@ def correspond(ctx):
     n, nshards = sizes(ctx)
     base_seed = ctx.rng.getrandbits(48)
     ctx.rule = ("seeded cases: 1/5 random type-directed recipes of fv/gen_terms.py (depth <= 4, 1-4 Bint inputs of size 1-4), "
-                "3/10 normal-form grid shapes (unary neg/abs/reciprocal/exp/log of a max/min/add/mul/logaddexp reduction of a binary "
+                "2/10 normal-form grid shapes (unary neg/abs/reciprocal/exp/log of a max/min/add/mul/logaddexp reduction of a binary "
                 "add/mul/sub/max/min or a three-term product, bare or wrapped in sub / truediv / add / outer reduce / second "
                 "unary / substitution / renaming; the exact (unary, red_op, bin_op) grid is walked first, in order; "
                 "expressions with inexact ops are compared after rounding to 8 digits against the eager build), "
                 "1/10 simultaneous substitutions with overlapping keys and values into a product/sum of 2-3 tensors over "
                 "equal-size inputs (a key replaced by a Number / index tensor / Slice while another input is renamed onto it, "
                 "swaps, chains, 3-cycles, diagonals, index tensors mentioning other keys; keyword order shuffled), "
+                "1/10 variadic nodes listing ONE hash-consed child twice next to a deeper sibling (Stack/Cat parts (a,a,b) in all "
+                "positions, nested, sum/product/max chains that normalize to Contraction terms (a,a,b)), below a root, bare or "
+                "substituted at names of both children (numbers, swap) or reduced, "
+                "1/10 non-commutative binary ops (sub, truediv, pow, lt/le/gt/ge) whose right / left / both operands are "
+                "`.align(names)` (full permutations and partial tuples) of compound sub-terms, bare, reduced, negated or nested, "
                 "1/10 user-defined terms made with funsor.factory.make_funsor (15 classes: every declaration order of Bound / "
                 "Funsor / Has / Fresh parameters, one and two binders, Fresh output names; bare, followed by .reduce(op) over ALL "
                 "inputs, by (t+z).reduce(op), or by substituting an index tensor that depends on a free variable named like the "
